@@ -306,6 +306,10 @@ def _execute_one(plan, wl=None):
                         raise W.Violation('I6-no-stop-after-drain', got=state['got'], expected=n)
                 else:
                     if op == 'close':
+                        if st.d < len(st.s):
+                            # end-of-stream before the last byte is truncated input (C06), not an arrival
+                            # schedule of s; only the shrinker can produce such a plan
+                            return common.skip_result('invalid-schedule:close-before-last-byte')
                         state['closed'] = True
                     W.apply_step(step, st)
                     trace.append(list(step))
